@@ -28,3 +28,33 @@ Model/Ser.vos Model/Ser.vok Model/Ser.required_vos: Model/Ser.v Model/Base.vos M
 Model/De.vo Model/De.glob Model/De.v.beautified Model/De.required_vo: Model/De.v Model/Base.vo Model/MachineInt.vo Model/VarintParams.vo Gen/GenArith.vo Gen/GenLoops.vo Model/Varint.vo Model/Utf8.vo Model/DataModel.vo
 Model/De.vio: Model/De.v Model/Base.vio Model/MachineInt.vio Model/VarintParams.vio Gen/GenArith.vio Gen/GenLoops.vio Model/Varint.vio Model/Utf8.vio Model/DataModel.vio
 Model/De.vos Model/De.vok Model/De.required_vos: Model/De.v Model/Base.vos Model/MachineInt.vos Model/VarintParams.vos Gen/GenArith.vos Gen/GenLoops.vos Model/Varint.vos Model/Utf8.vos Model/DataModel.vos
+Model/Fixint.vo Model/Fixint.glob Model/Fixint.v.beautified Model/Fixint.required_vo: Model/Fixint.v Model/Base.vo Model/MachineInt.vo Model/DataModel.vo Model/Ser.vo Model/De.vo
+Model/Fixint.vio: Model/Fixint.v Model/Base.vio Model/MachineInt.vio Model/DataModel.vio Model/Ser.vio Model/De.vio
+Model/Fixint.vos Model/Fixint.vok Model/Fixint.required_vos: Model/Fixint.v Model/Base.vos Model/MachineInt.vos Model/DataModel.vos Model/Ser.vos Model/De.vos
+Model/Extract.vo Model/Extract.glob Model/Extract.v.beautified Model/Extract.required_vo: Model/Extract.v Model/Base.vo Model/MachineInt.vo Model/VarintParams.vo Gen/GenArith.vo Gen/GenLoops.vo Model/Varint.vo Model/Utf8.vo Model/DataModel.vo Model/Ser.vo Model/De.vo Model/Fixint.vo
+Model/Extract.vio: Model/Extract.v Model/Base.vio Model/MachineInt.vio Model/VarintParams.vio Gen/GenArith.vio Gen/GenLoops.vio Model/Varint.vio Model/Utf8.vio Model/DataModel.vio Model/Ser.vio Model/De.vio Model/Fixint.vio
+Model/Extract.vos Model/Extract.vok Model/Extract.required_vos: Model/Extract.v Model/Base.vos Model/MachineInt.vos Model/VarintParams.vos Gen/GenArith.vos Gen/GenLoops.vos Model/Varint.vos Model/Utf8.vos Model/DataModel.vos Model/Ser.vos Model/De.vos Model/Fixint.vos
+Proofs/BaseFacts.vo Proofs/BaseFacts.glob Proofs/BaseFacts.v.beautified Proofs/BaseFacts.required_vo: Proofs/BaseFacts.v Model/Base.vo
+Proofs/BaseFacts.vio: Proofs/BaseFacts.v Model/Base.vio
+Proofs/BaseFacts.vos Proofs/BaseFacts.vok Proofs/BaseFacts.required_vos: Proofs/BaseFacts.v Model/Base.vos
+Spec/WireFormat.vo Spec/WireFormat.glob Spec/WireFormat.v.beautified Spec/WireFormat.required_vo: Spec/WireFormat.v Model/Base.vo Model/MachineInt.vo Model/Utf8.vo Model/DataModel.vo
+Spec/WireFormat.vio: Spec/WireFormat.v Model/Base.vio Model/MachineInt.vio Model/Utf8.vio Model/DataModel.vio
+Spec/WireFormat.vos Spec/WireFormat.vok Spec/WireFormat.required_vos: Spec/WireFormat.v Model/Base.vos Model/MachineInt.vos Model/Utf8.vos Model/DataModel.vos
+Proofs/BitFacts.vo Proofs/BitFacts.glob Proofs/BitFacts.v.beautified Proofs/BitFacts.required_vo: Proofs/BitFacts.v Model/Base.vo
+Proofs/BitFacts.vio: Proofs/BitFacts.v Model/Base.vio
+Proofs/BitFacts.vos Proofs/BitFacts.vok Proofs/BitFacts.required_vos: Proofs/BitFacts.v Model/Base.vos
+Proofs/VarintFacts.vo Proofs/VarintFacts.glob Proofs/VarintFacts.v.beautified Proofs/VarintFacts.required_vo: Proofs/VarintFacts.v Model/Base.vo Model/MachineInt.vo Model/VarintParams.vo Gen/GenArith.vo Gen/GenLoops.vo Model/Varint.vo Spec/WireFormat.vo Proofs/BaseFacts.vo Proofs/BitFacts.vo
+Proofs/VarintFacts.vio: Proofs/VarintFacts.v Model/Base.vio Model/MachineInt.vio Model/VarintParams.vio Gen/GenArith.vio Gen/GenLoops.vio Model/Varint.vio Spec/WireFormat.vio Proofs/BaseFacts.vio Proofs/BitFacts.vio
+Proofs/VarintFacts.vos Proofs/VarintFacts.vok Proofs/VarintFacts.required_vos: Proofs/VarintFacts.v Model/Base.vos Model/MachineInt.vos Model/VarintParams.vos Gen/GenArith.vos Gen/GenLoops.vos Model/Varint.vos Spec/WireFormat.vos Proofs/BaseFacts.vos Proofs/BitFacts.vos
+Proofs/VarintCore.vo Proofs/VarintCore.glob Proofs/VarintCore.v.beautified Proofs/VarintCore.required_vo: Proofs/VarintCore.v Model/Base.vo Model/MachineInt.vo Model/VarintParams.vo Gen/GenArith.vo Gen/GenLoops.vo Model/Varint.vo Spec/WireFormat.vo Model/De.vo Proofs/BaseFacts.vo Proofs/BitFacts.vo Proofs/VarintFacts.vo
+Proofs/VarintCore.vio: Proofs/VarintCore.v Model/Base.vio Model/MachineInt.vio Model/VarintParams.vio Gen/GenArith.vio Gen/GenLoops.vio Model/Varint.vio Spec/WireFormat.vio Model/De.vio Proofs/BaseFacts.vio Proofs/BitFacts.vio Proofs/VarintFacts.vio
+Proofs/VarintCore.vos Proofs/VarintCore.vok Proofs/VarintCore.required_vos: Proofs/VarintCore.v Model/Base.vos Model/MachineInt.vos Model/VarintParams.vos Gen/GenArith.vos Gen/GenLoops.vos Model/Varint.vos Spec/WireFormat.vos Model/De.vos Proofs/BaseFacts.vos Proofs/BitFacts.vos Proofs/VarintFacts.vos
+Proofs/ZigZagFacts.vo Proofs/ZigZagFacts.glob Proofs/ZigZagFacts.v.beautified Proofs/ZigZagFacts.required_vo: Proofs/ZigZagFacts.v Model/Base.vo Model/MachineInt.vo Gen/GenArith.vo Model/DataModel.vo Spec/WireFormat.vo Model/Ser.vo Model/De.vo
+Proofs/ZigZagFacts.vio: Proofs/ZigZagFacts.v Model/Base.vio Model/MachineInt.vio Gen/GenArith.vio Model/DataModel.vio Spec/WireFormat.vio Model/Ser.vio Model/De.vio
+Proofs/ZigZagFacts.vos Proofs/ZigZagFacts.vok Proofs/ZigZagFacts.required_vos: Proofs/ZigZagFacts.v Model/Base.vos Model/MachineInt.vos Gen/GenArith.vos Model/DataModel.vos Spec/WireFormat.vos Model/Ser.vos Model/De.vos
+Proofs/FixintFacts.vo Proofs/FixintFacts.glob Proofs/FixintFacts.v.beautified Proofs/FixintFacts.required_vo: Proofs/FixintFacts.v Model/Base.vo Model/MachineInt.vo Model/DataModel.vo Model/Ser.vo Model/De.vo Model/Fixint.vo Proofs/BaseFacts.vo Proofs/ZigZagFacts.vo
+Proofs/FixintFacts.vio: Proofs/FixintFacts.v Model/Base.vio Model/MachineInt.vio Model/DataModel.vio Model/Ser.vio Model/De.vio Model/Fixint.vio Proofs/BaseFacts.vio Proofs/ZigZagFacts.vio
+Proofs/FixintFacts.vos Proofs/FixintFacts.vok Proofs/FixintFacts.required_vos: Proofs/FixintFacts.v Model/Base.vos Model/MachineInt.vos Model/DataModel.vos Model/Ser.vos Model/De.vos Model/Fixint.vos Proofs/BaseFacts.vos Proofs/ZigZagFacts.vos
+Properties/C13.vo Properties/C13.glob Properties/C13.v.beautified Properties/C13.required_vo: Properties/C13.v Model/Base.vo Model/MachineInt.vo Model/DataModel.vo Model/Ser.vo Model/De.vo Model/Fixint.vo Proofs/FixintFacts.vo
+Properties/C13.vio: Properties/C13.v Model/Base.vio Model/MachineInt.vio Model/DataModel.vio Model/Ser.vio Model/De.vio Model/Fixint.vio Proofs/FixintFacts.vio
+Properties/C13.vos Properties/C13.vok Properties/C13.required_vos: Properties/C13.v Model/Base.vos Model/MachineInt.vos Model/DataModel.vos Model/Ser.vos Model/De.vos Model/Fixint.vos Proofs/FixintFacts.vos
